@@ -425,17 +425,17 @@ fn assert_kind<'tcx>(m: &AssertMessage<'tcx>) -> String {
 }
 
 pub fn const_str<'tcx>(c: &Const<'tcx>) -> String {
-    use rustc_middle::ty::print::{with_no_trimmed_paths, with_resolve_crate_name};
-    with_resolve_crate_name!(with_no_trimmed_paths!(format!("{}", c)))
+    use rustc_middle::ty::print::{with_no_trimmed_paths, with_no_visible_paths, with_resolve_crate_name};
+    with_resolve_crate_name!(with_no_visible_paths!(with_no_trimmed_paths!(format!("{}", c))))
 }
 
 pub fn ty_str_args<'tcx>(_tcx: TyCtxt<'tcx>, args: ty::GenericArgsRef<'tcx>) -> String {
-    use rustc_middle::ty::print::{with_no_trimmed_paths, with_resolve_crate_name};
+    use rustc_middle::ty::print::{with_no_trimmed_paths, with_no_visible_paths, with_resolve_crate_name};
     let parts: Vec<String> = args
         .iter()
         .filter_map(|a| {
             if let Some(t) = a.as_type() {
-                Some(with_resolve_crate_name!(with_no_trimmed_paths!(t.to_string())))
+                Some(with_resolve_crate_name!(with_no_visible_paths!(with_no_trimmed_paths!(t.to_string()))))
             } else if let Some(c) = a.as_const() {
                 Some(format!("{}", c))
             } else {
